@@ -158,11 +158,14 @@ def apply_fs(op, base):
         with open(path, "wb") as fd:
             fd.write(blob_from_token(op["data"]).bytes())
     elif k == "delete":
-        os.remove(path)
+        if os.path.lexists(path):
+            os.remove(path)
     elif k == "grow":
         with open(path, "ab") as fd:
             fd.write(blob_from_token(op["data"]).bytes())
     elif k == "rewrite-same-size":
+        if not os.path.isfile(path):
+            return
         size = os.path.getsize(path)
         from harness.common import Blob
         with open(path, "wb") as fd:
@@ -172,6 +175,8 @@ def apply_fs(op, base):
         with open(path, "ab") as fd:
             fd.truncate(op["size"])
     elif k == "shrink":
+        if not os.path.isfile(path):
+            return          # (an earlier operation should have produced it; that failure is reported there)
         size = os.path.getsize(path)
         with open(path, "r+b") as fd:
             fd.truncate(max(0, size - op["by"]))
